@@ -537,8 +537,9 @@ func (e *kvElection) attemptPriorityTakeover(payloadBytes []byte) error {
 		return fmt.Errorf("failed to unmarshal payload after takeover: %w", err)
 	}
 
-	e.revision.Store(newRev)
-	e.token.Store(newPayloadStruct.Token)
+	// token and revision are stored by becomeLeader, under the mutex and only if the promotion
+	// is accepted: an answer that arrives after Stop, or while a term of this instance is
+	// already running, must not replace the running term's token and revision
 	verifNote(e, "takeover_ok", int64(newRev))
 	e.becomeLeader(newPayloadStruct.Token, newRev)
 	return nil
